@@ -23,7 +23,7 @@ RULE = ("1-3 Directory volumes (any mix of read-only / writable / marked full, r
         "plants at least one non-intact copy or contains a PUT; distinct = distinct case line")
 ASSUMPTIONS = [
     "sequential requests: the file under a block path does not change between stat and read (races are C02/C04)",
-    "Touch, MkdirAll, TempFile, rename and reads of an existing regular file do not fail (run as the volume owner)",
+    "Touch, MkdirAll, TempFile, rename, the uncontended flock on a replaced file and reads of an existing regular file do not fail (run as the volume owner)",
     "the uint32 round-robin counter does not wrap (fewer than 2^32 PUTs per process)",
     "collision-freeness only where stated: C01_put_ack_then_get returns the PUT bytes under `forall x, hash x = h -> x = b`",
 ]
